@@ -795,6 +795,14 @@ fn do_internal_timer<M: AsRef<[Machine]>>(
     }
 
     assert!(machine.is_some(), "BUG: no internal action found");
+    #[cfg(feature = "verif")]
+    verif::log_fire(
+        is_client,
+        target,
+        verif::Fired::InternalTimer {
+            machine: machine.unwrap(),
+        },
+    );
 
     // create SimEvent with TimerEnd
     Some(SimEvent {
@@ -848,6 +856,8 @@ fn do_scheduled_action<M: AsRef<[Machine]>>(
     // no action found
     assert!(a.is_some(), "BUG: no action found");
     let a = a.unwrap();
+    #[cfg(feature = "verif")]
+    verif::log_fire(is_client, a.time, verif::Fired::Action(a.action.clone()));
 
     // do the action
     match a.action {
